@@ -116,7 +116,7 @@ def masks(draw, n):
     return m
 
 
-_LABEL_SMALL = st.text(st.sampled_from("abAB _1"), max_size=4)
+_LABEL_SMALL = st.text(st.sampled_from("abAB _10"), max_size=4)
 
 
 def labels(width):
@@ -125,7 +125,7 @@ def labels(width):
         _LABEL_SMALL,
         st.text(st.sampled_from("abcdefghijklmnopqrstuvwxyzABCDEFGHIJKLMNOPQRSTUVWXYZ0123456789 _-."), max_size=min(20, width - 1)),
         st.text(enc, max_size=width - 1),
-        st.text(st.sampled_from(cp1252.HIGH_CHARS + cp1252.LATIN1_CHARS), max_size=min(12, width - 1)),
+        st.text(st.sampled_from("0" + cp1252.HIGH_CHARS + cp1252.LATIN1_CHARS), max_size=min(12, width - 1)),
         st.integers(max(0, width - 3), width - 1).flatmap(lambda n: st.text(enc, min_size=n, max_size=n)),
     )
 
